@@ -8,6 +8,7 @@ Operands are classified (the contract's case split, DESIGN.md section 3 "Algebra
 Every triple satisfies the weak representation invariant 0 <= X < p, -p < Y < p, 0 <= Z < p.
 """
 import sympy as sp
+import z3
 
 from pyvc.contract import Contract, REGISTRY, call_named
 from pyvc import field as FD
@@ -1297,6 +1298,12 @@ def xcoord_atom(ex, F, s, which="x"):
     ex.n_fresh += 1
     a = F.atom("%s_of_pt%d" % (which, ex.n_fresh), "free")
     F.xatoms.append((which, s, a))
+    W = getattr(F, "world", None)
+    if W is not None and "curve" in W and hasattr(W["curve"].fields.get("_CurveFp__p"), "t"):
+        # an affine coordinate is a canonical residue of the field prime (postcondition of x() / y(), C06)
+        fp = W["curve"].fields["_CurveFp__p"].t
+        ex.pc.append(z3.And(a.zt >= 0, a.zt < fp))
+    F.ranges[a.res] = (lin(0, 0), None)          # affine coordinates are non-negative
     return a
 
 
